@@ -1,29 +1,80 @@
 (* C06 - Lockup: locked funds are safe, time-locked, and exactly indexed.
-   Property theorems only; each is closed by a lemma from C06/Proofs*.v. *)
+   Property theorems only; each is closed by a lemma from C06/Proofs*.v.
+
+   Histories: any finite list of operations (Model.op: MsgLockTokens incl. the add-to-existing-lock path,
+   AddTokensToLockByID, MsgExtendLockup, MsgBeginUnlocking full / partial (SplitLock), MsgBeginUnlockingAll,
+   UnlockMaturedLock, WithdrawMaturedLocks, EndBlocker, MsgSetRewardReceiverAddress, MsgForceUnlock, block-time
+   advance - a block-time decrease is refused, so block times are monotone) by any senders other than the module
+   account, with any arguments, from any genesis with funded accounts and nothing locked; every handler runs
+   atomically ([step]).  [reachable t0 fund allowed ops] is the state after the history. *)
 From Coq Require Import ZArith List Bool.
 Import ListNotations.
-From Osmo Require Import C06.Model C06.Proofs.
+From Osmo Require Import C06.Model C06.Proofs C06.ProofsAcc C06.ProofsRefs C06.ProofsQuery.
 Open Scope Z_scope.
 
-(* histories: any list of operations whose senders are ordinary accounts (the module account signs nothing) *)
-
-(* the lockup module account holds exactly the sum of all live locks' coins, after every history *)
+(* the lockup module account holds exactly the sum of all live locks' coins *)
 Theorem C06_module_balance_eq_sum_locks : forall t0 fund allowed ops dn, Forall op_sender_ok ops ->
   let s := run (init_state t0 fund allowed) ops in
   s_bal s module_acc dn = coins_of (s_locks s) dn.
 Proof. exact module_balance_eq_sum_locks. Qed.
 Print Assumptions C06_module_balance_eq_sum_locks.
 
-(* non-vacuity: two owners, locks sharing a duration, add-to-existing, partial unlock (split), maturity, withdrawal *)
+(* for every denomination (not the empty string, which is no denomination) and every duration d >= 0:
+   GetPeriodLocksAccumulation(denom, d) = sum over the live locks of that denomination with duration >= d *)
+Theorem C06_accum_eq : forall t0 fund allowed ops dn d, Forall op_sender_ok ops -> dn <> 0 -> 0 <= d ->
+  let s := run (init_state t0 fund allowed) ops in
+  get_period_locks_accumulation s dn d = locked_longer (s_locks s) dn d.
+Proof. exact accum_eq. Qed.
+Print Assumptions C06_accum_eq.
+
+(* the reference entries are exactly (key, id) for the live locks id and the keys lockRefKeys / durationLockRefKeys
+   generate for them under the unlocking / not-unlocking prefix; no entry twice *)
+Theorem C06_refs_exact : forall t0 fund allowed ops, 0 < t0 -> Forall op_sender_ok ops ->
+  let s := reachable t0 fund allowed ops in
+  NoDup (s_refs s) /\
+  forall k id, In (k, id) (s_refs s) <-> exists l, In l (s_locks s) /\ l_id l = id /\ In k (ref_keys l).
+Proof. exact refs_exact. Qed.
+Print Assumptions C06_refs_exact.
+
+(* hence every iterator of iterator.go - each is [iterate] over one key family (unlocking?, kind, account, denom) with a
+   value predicate (all / end time after t / end time <= t / duration = d / >= d / < d) - returns exactly, and once each,
+   the live locks that match, and getLocksFromIterator finds a record for every returned id (never panics) *)
+Theorem C06_queries_exact : forall t0 fund allowed ops unl kd acc dn p, 0 < t0 -> Forall op_sender_ok ops ->
+  let s := reachable t0 fund allowed ops in
+  (forall id, In id (iterate (s_refs s) unl kd acc dn p) <-> In id (map l_id (filter (matches unl kd acc dn p) (s_locks s))))
+  /\ NoDup (iterate (s_refs s) unl kd acc dn p)
+  /\ exists ls, locks_of_ids s (iterate (s_refs s) unl kd acc dn p) = Ok ls /\ map l_id ls = iterate (s_refs s) unl kd acc dn p.
+Proof. exact queries_exact. Qed.
+Print Assumptions C06_queries_exact.
+
+(* two instances spelled out: AccountLockIteratorLongerDurationDenom and LockIteratorBeforeTime *)
+Theorem C06_account_longer_duration_denom : forall t0 fund allowed ops unl a dn d id, 0 < t0 -> Forall op_sender_ok ops ->
+  let s := reachable t0 fund allowed ops in
+  In id (it_acc_longer_duration_denom s unl a dn d) <->
+  exists l, In l (s_locks s) /\ l_id l = id /\ is_unlocking l = unl /\ l_owner l = a /\ l_denom l = dn /\ dur_key d <= dur_key (l_dur l).
+Proof. exact account_longer_duration_denom_exact. Qed.
+Print Assumptions C06_account_longer_duration_denom.
+
+Theorem C06_lock_iterator_before_time : forall t0 fund allowed ops t id, 0 < t0 -> Forall op_sender_ok ops ->
+  let s := reachable t0 fund allowed ops in
+  In id (it_lock_before_time s t) <->
+  exists l, In l (s_locks s) /\ l_id l = id /\ is_unlocking l = true /\ l_end l <= t.
+Proof. exact lock_iterator_before_time_exact. Qed.
+Print Assumptions C06_lock_iterator_before_time.
+
+(* non-vacuity: two owners, locks sharing a duration, add-to-existing, partial unlock (split), maturity, withdrawal,
+   extension, partial force-unlock of an unlocking lock, end-block *)
 Definition nv_fund (a dn : Z) : Z := 1000.
 Definition nv_ops : list op :=
   [ OLock 1 1 100 5; OLock 2 1 70 5; OLock 1 1 30 5; OLock 1 2 40 9; OBegin 1 1 1 50; OTime 14; OBegin 2 2 1 0;
     OTime 15; OWithdraw 0; OExtend 1 3 20; OForce 2 2 1 10; OTime 100; OEndBlock 120 ].
 Example C06_nonvacuous :
-  Forall op_sender_ok nv_ops /\
-  let s := run (init_state 10 nv_fund [2]) nv_ops in
+  Forall op_sender_ok nv_ops /\ 0 < 10 /\
+  let s := reachable 10 nv_fund [2] nv_ops in
   map l_id (s_locks s) = [1; 3] /\ s_bal s module_acc 1 = 80 /\ s_bal s module_acc 2 = 40 /\
-  s_bal s 1 1 = 920 /\ s_bal s 2 1 = 1000 /\ s_last s = 5.
+  s_bal s 1 1 = 920 /\ s_bal s 2 1 = 1000 /\ s_last s = 5 /\ length (s_refs s) = 8%nat /\
+  get_period_locks_accumulation s 1 5 = 80 /\ get_period_locks_accumulation s 2 10 = 40 /\
+  it_acc_longer_duration_denom s false 1 2 10 = [3].
 Proof.
-  split; [repeat constructor; cbn; discriminate|]. vm_compute. repeat split.
+  split; [repeat constructor; cbn; discriminate|]. split; [reflexivity|]. vm_compute. repeat split.
 Qed.
